@@ -38,6 +38,7 @@ def strategy(tier):
         gen.admgs(1, mx).map(lambda g: {"g": g}),
         gen.admgs(3, mx, bi_densities=(3, 5, 7), di_densities=(1, 3, 5)).map(lambda g: {"g": g}),
         gen.embedded_admgs(2).map(lambda g: {"g": g}),
+        gen.embedded_admgs(1, motifs=gen.SEP_MOTIFS).map(lambda g: {"g": g}),
     )
 
 
@@ -75,7 +76,7 @@ def check(case) -> Outcome:
     g = case["g"]
     graph = build_graph(g)
     graph2 = build_graph(reinsert(g))
-    from ..y0util import build_graph_incremental
+    from ..y0util import as_iterable, build_graph_incremental
 
     try:
         graph3 = build_graph_incremental(g)
@@ -91,12 +92,12 @@ def check(case) -> Outcome:
     verdicts = set()
     bi_nodes = {x for e in g["bi"] for x in e}
     queries = [tuple(case["query"][:2]) + (tuple(case["query"][2]),)] if case.get("query") else _queries(g["nodes"])
-    for a, b, c in queries:
+    for qn, (a, b, c) in enumerate(queries):
         nq += 1
         want = oracle.separated(a, b, c)
         try:
-            j = are_d_separated(graph, V(a), V(b), conditions=[V(x) for x in c])
-            j2 = are_d_separated(graph2, V(a), V(b), conditions=[V(x) for x in reversed(c)])
+            j = are_d_separated(graph, V(a), V(b), conditions=as_iterable([V(x) for x in c], qn))
+            j2 = are_d_separated(graph2, V(a), V(b), conditions=as_iterable([V(x) for x in reversed(c)], qn + 3))
         except Exception as e:  # a valid query must be answered
             out.ok = False
             out.detail = {"kind": "exception", "query": [a, b, list(c)], "exc": repr(e)[:300], "graph": g}
